@@ -22,7 +22,6 @@ STUBS = ["SimNet fetcher for @import targets", "SimLog log sink"]
 ASSUMPTIONS = [
     "a rule object is only re-inserted while it is detached (inserting one object into two lists is not an edit the statement describes)",
     "restart compares rule kinds of rules whose own serialisation is non-empty (default preferences drop empty rules)",
-    "parentStyleSheet of rules nested two or more levels deep may be the sheet or None (cssutils resolves it through one level only); it may never be another sheet",
 ]
 PROBES = ["ordered_add_with_comment_first", "charset_reset_through_encoding", "rule_moved_between_containers", "rejected_add", "sheet_text_replaced", "restart", "nested_insert"]
 
@@ -133,7 +132,7 @@ class World:
                     if r.parentRule is not c:
                         raise Viol("I4_parent_links", f"{where}:nested-parentRule", f"after {where}: {t} in {ct} has parentRule {r.parentRule!r}")
                     ps = r.parentStyleSheet
-                    if not (ps is s or (depth >= 2 and ps is None)):
+                    if ps is not s:
                         raise Viol("I4_parent_links", f"{where}:nested-parentStyleSheet", f"after {where}: {t} at depth {depth} has parentStyleSheet {ps!r}")
                 else:
                     if r.parentStyleSheet is not s or r.parentRule is not None:
